@@ -93,8 +93,15 @@ impl Ctx {
             let mut q = p.clone();
             let old = proj::registry(Mode::Plain, &q);
             let ks = keep.clone();
-            let map = q.retain(|i| ks.contains(&i));
-            self.put(&json!({"ev": "Retain", "old": old, "keep": keep, "map": map.iter().map(|(a, b)| json!([a, b])).collect::<Vec<_>>(), "new": proj::registry(Mode::Plain, &q)}));
+            // retain's premise is a well-formed input; if the registry at hand is not (another property's
+            // matter) retain may panic: that is not this event's business, the event is dropped
+            let r = crate::guarded(move || {
+                let map = q.retain(|i| ks.contains(&i));
+                (map, q)
+            });
+            if let Ok((map, q)) = r {
+                self.put(&json!({"ev": "Retain", "old": old, "keep": keep, "map": map.iter().map(|(a, b)| json!([a, b])).collect::<Vec<_>>(), "new": proj::registry(Mode::Plain, &q)}));
+            }
         }
         self.reg = Some(p);
         let n = self.metas.len();
